@@ -1,23 +1,96 @@
 import NA.Gen.IosSkel
 import NA.Model.IosSessionSkel
+import NA.Model.IosSessionProg
 /-!
-# C15, generated fact (T-gen): the call skeleton of `go/pkg/ios/device.go` is the one the model mirrors
+# C15, generated fact (T-gen): the call skeleton of `go/pkg/ios/device.go` is the skeleton OF THE MODEL
 
-`NA.Gen.IosSkel.skel` is rewritten from the source on every check.  Dropping or moving a `defer`,
-moving `s.writeMem()`, removing the re-arm, changing a prompt pattern or the order of the
-exchanges changes the generated data and this theorem no longer checks.
+`NA.Gen.IosSkel.skel` is rewritten from the source on every check.  The programs of
+`NA/Model/IosSessionProg.lean` are single terms with two readings:
+
+* `denote_*` — their semantics IS the executable model used by every C15 theorem
+  (`applyCommands … true`, `cmd … true`, `check`, `sendReloadCmd`, `cancelReload`, `prepareDevice`);
+* `skel_*` — their skeleton IS the regenerated skeleton of the Go function.
+
+Dropping or moving a `defer`, moving `s.writeMem()`, removing the re-arm, changing a prompt
+pattern or the order of the exchanges changes the generated data; restructuring the model breaks
+the `denote` equations.  `writeMem` (retry loop) and `stripReloadBanner` (early returns) are
+compared as declared token lists only (`skeleton_matches`); their semantics is tied by the
+differential runs of the harness.
 -/
 namespace NA.C15Skel
+open NA.Ios NA.Ios.Prog
 
+variable {σ : Type}
+
+theorem bindM_pure_left {α β : Type} (a : α) (f : α → M σ β) : bindM (pureM a) f = f a := rfl
+
+theorem bindM_pure_right (m : M σ Unit) : bindM m (fun _ => pureM ()) = m := by
+  funext st
+  unfold bindM pureM
+  cases h : m st with
+  | mk r st' => cases r <;> rfl
+
+/-! ## the programs denote the model -/
+
+theorem denote_prepareDevice (D : Device σ) : denote (prepareDeviceP D) = prepareDevice D := by
+  have : prepareDevice D =
+      bindM (sendCmd D confCmd) fun _ => bindM (sendCmd D (lit "no logging console")) fun _ =>
+      bindM (sendCmd D (lit "line vty 0 15")) fun _ => bindM (sendCmd D (lit "logging synchronous level all")) fun _ =>
+      bindM (sendCmd D (lit "ip subnet-zero")) fun _ => bindM (sendCmd D (lit "ip classless")) fun _ =>
+      bindM (sendCmd D endCmd) fun _ => pureM () := rfl
+  rw [this, bindM_pure_right]
+  rfl
+
+theorem denote_sendReloadCmd (D : Device σ) (b : Bool) : denote (sendReloadCmdP D b) = sendReloadCmd D b := by
+  cases b <;> rfl
+
+theorem denote_cancelReload (D : Device σ) : denote (cancelReloadP D) = cancelReload D := rfl
+
+theorem denote_check (ci : Str) : denote (checkP (σ := σ) ci) = check ci := by
+  unfold check checkP
+  simp only [denote, bindM_pure_left]
+  congr 1; funext out; congr 1; funext p; congr 1; funext o; congr 1
+  unfold checkOutput
+  cases o.isEmpty
+  · simp only [Bool.not_false, if_true, Bool.false_eq_true, if_false]
+    congr 1; funext _
+    cases (validOutput (splitOnNL o)).2 <;> rfl
+  · rfl
+
+theorem denote_cmd (D : Device σ) (c : Str) : denote (cmdP D c) = cmd D true c := by
+  unfold cmd cmdP
+  simp only [denote, bindM_pure_left, denote_check]
+  congr 1; funext _; congr 1; funext n1; congr 1
+  cases (cutNL c).2.isEmpty <;> rfl
+
+theorem denote_applyCommands (D : Device σ) (cs : List Str) :
+    denote (applyCommandsP D cs) = applyCommands D true cs := by
+  unfold applyCommands applyCommandsP guarded guardedBody changeLoop
+  simp only [denote, bindM_pure_left, bindM_pure_right]
+
+/-! ## their skeleton is the regenerated one -/
+
+theorem skel_applyCommands (D : Device σ) (cs : List Str) :
+    NA.Gen.IosSkel.skel.lookup "ApplyCommands" = some (skel (applyCommandsP D cs)) := rfl
+theorem skel_cmd (D : Device σ) (c : Str) :
+    NA.Gen.IosSkel.skel.lookup "cmd" = some (skel (cmdP D c)) := rfl
+theorem skel_sendReloadCmd (D : Device σ) (b : Bool) :
+    NA.Gen.IosSkel.skel.lookup "sendReloadCmd" = some (skel (sendReloadCmdP D b)) := rfl
+theorem skel_scheduleReload (D : Device σ) :
+    NA.Gen.IosSkel.skel.lookup "scheduleReload" = some (skel (scheduleReloadP D)) := rfl
+theorem skel_extendReload (D : Device σ) :
+    NA.Gen.IosSkel.skel.lookup "extendReload" = some (skel (extendReloadP D)) := rfl
+theorem skel_cancelReload (D : Device σ) :
+    NA.Gen.IosSkel.skel.lookup "cancelReload" = some (skel (cancelReloadP D)) := rfl
+theorem skel_prepareDevice (D : Device σ) :
+    NA.Gen.IosSkel.skel.lookup "prepareDevice" = some (skel (prepareDeviceP D)) := rfl
+
+/-- the remaining functions (`writeMem`, `stripReloadBanner`): declared token lists -/
 theorem skeleton_matches : NA.Gen.IosSkel.skel = NA.Ios.declaredSkel := rfl
 
-/-- the part of the skeleton the guard theorems rest on, spelled out -/
-theorem guard_skeleton :
-    NA.Gen.IosSkel.skel.lookup "ApplyCommands" = some
-      ["s.Conn.SetLogFH(logFh)", "s.prepareDevice()", "func() {", "s.scheduleReload()",
-       "defer s.cancelReload()", "s.Conn.SendCmd(\"configure terminal\")", "defer s.Conn.SendCmd(\"end\")",
-       "range s.Changes {", "s.cmd(chg)", "}", "}()", "s.writeMem()", "return nil"] := by decide
-
-def obligations : List Lean.Name := [``skeleton_matches, ``guard_skeleton]
+def obligations : List Lean.Name :=
+  [``denote_applyCommands, ``denote_cmd, ``denote_check, ``denote_sendReloadCmd, ``denote_cancelReload,
+   ``denote_prepareDevice, ``skel_applyCommands, ``skel_cmd, ``skel_sendReloadCmd, ``skel_scheduleReload,
+   ``skel_extendReload, ``skel_cancelReload, ``skel_prepareDevice, ``skeleton_matches]
 
 end NA.C15Skel
